@@ -30,15 +30,25 @@ func (s finSet) empty() bool {
 
 // finExpr evaluates a pure SSA expression for argument x; taken maps join
 // blocks to the predecessor index through which the current path entered.
-func finExpr(v ssa.Value, prm *ssa.Parameter, x int64, taken map[*ssa.BasicBlock]int, depth int) (constant.Value, bool) {
+func finExpr(v ssa.Value, prm ssa.Value, x int64, taken map[*ssa.BasicBlock]int, depth int) (constant.Value, bool) {
 	if depth > 40 {
 		return nil, false
 	}
-	switch e := v.(type) {
-	case *ssa.Parameter:
-		if e == prm {
+	if prm != nil && v == prm {
+		return constant.MakeInt64(x), true
+	}
+	if finVals != nil {
+		if cv, ok := finVals[v]; ok {
+			return cv, cv != nil
+		}
+	}
+	if prm != nil {
+		// another load of the same local cell with no write in between is the same number
+		if _, isLoad := v.(*ssa.UnOp); isLoad && types.Identical(v.Type(), prm.Type()) && sameNumeric(v, prm) {
 			return constant.MakeInt64(x), true
 		}
+	}
+	switch e := v.(type) {
 	case *ssa.Const:
 		if e.Value == nil {
 			return nil, false
@@ -66,6 +76,23 @@ func finExpr(v ssa.Value, prm *ssa.Parameter, x int64, taken map[*ssa.BasicBlock
 			return nil, false
 		}
 		return finExpr(e.Edges[i], prm, x, taken, depth+1)
+	case *ssa.Call:
+		// a call of a pure function of one 8-bit argument: its table
+		if f := e.Common().StaticCallee(); f != nil && len(e.Common().Args) == 1 {
+			if tab, ok := finTable8(f); ok {
+				a, oka := finExpr(e.Common().Args[0], prm, x, taken, depth+1)
+				if !oka || a.Kind() != constant.Int {
+					return nil, false
+				}
+				k, _ := constant.Int64Val(a)
+				r := tab[uint8(k)]
+				if b, isB := f.Signature.Results().At(0).Type().Underlying().(*types.Basic); isB && b.Info()&types.IsBoolean != 0 {
+					return constant.MakeBool(r != 0), true
+				}
+				return constant.MakeInt64(r), true
+			}
+		}
+		return nil, false
 	case *ssa.UnOp:
 		in, ok := finExpr(e.X, prm, x, taken, depth+1)
 		if !ok {
@@ -176,6 +203,112 @@ func wrapInt(k int64, w int, signed bool) int64 {
 	return k
 }
 
+// finTable8: the complete value table of a function of one 8-bit integer
+// parameter with one integer or boolean result (booleans as 0/1), indexed by
+// the argument's bit pattern.  ok=false when fn is not such a function or
+// contains anything but branches and pure expressions over the parameter.
+var finTableCache = map[*ssa.Function]*[256]int64{}
+
+func finTable8(fn *ssa.Function) (*[256]int64, bool) {
+	if t, ok := finTableCache[fn]; ok {
+		return t, t != nil
+	}
+	finTableCache[fn] = nil
+	if fn == nil || fn.Blocks == nil || len(fn.Params) != 1 || fn.Signature.Results().Len() != 1 {
+		return nil, false
+	}
+	prm := fn.Params[0]
+	w, signed, okw := typeWidth(prm.Type(), "amd64")
+	if !okw || w != 8 {
+		return nil, false
+	}
+	for _, b := range fn.Blocks {
+		for _, in := range b.Instrs {
+			switch x := in.(type) {
+			case *ssa.BinOp, *ssa.Convert, *ssa.ChangeType, *ssa.Phi, *ssa.If, *ssa.Jump, *ssa.Return, *ssa.DebugRef:
+			case *ssa.UnOp:
+				if x.Op == token.MUL || x.Op == token.ARROW {
+					return nil, false
+				}
+			case *ssa.Call:
+				// calls of other such functions
+				if _, ok := finTable8(x.Common().StaticCallee()); !ok || x.Common().StaticCallee() == fn {
+					return nil, false
+				}
+			default:
+				return nil, false
+			}
+		}
+		for _, s := range b.Succs {
+			if isBackEdge(b, s) {
+				return nil, false
+			}
+		}
+	}
+	var tab [256]int64
+	for i := 0; i < 256; i++ {
+		x := int64(i)
+		if signed {
+			x = int64(int8(i))
+		}
+		taken := map[*ssa.BasicBlock]int{}
+		b := fn.Blocks[0]
+		for steps := 0; ; steps++ {
+			if steps > len(fn.Blocks)+2 {
+				return nil, false
+			}
+			last := b.Instrs[len(b.Instrs)-1]
+			var next *ssa.BasicBlock
+			switch t := last.(type) {
+			case *ssa.Return:
+				v, okv := finExpr(t.Results[0], prm, x, taken, 0)
+				if !okv {
+					return nil, false
+				}
+				switch v.Kind() {
+				case constant.Bool:
+					if constant.BoolVal(v) {
+						tab[i] = 1
+					}
+				case constant.Int:
+					k, exact := constant.Int64Val(v)
+					if !exact {
+						return nil, false
+					}
+					tab[i] = k
+				default:
+					return nil, false
+				}
+			case *ssa.Jump:
+				next = b.Succs[0]
+			case *ssa.If:
+				v, okv := finExpr(t.Cond, prm, x, taken, 0)
+				if !okv || v.Kind() != constant.Bool {
+					return nil, false
+				}
+				if constant.BoolVal(v) {
+					next = b.Succs[0]
+				} else {
+					next = b.Succs[1]
+				}
+			default:
+				return nil, false
+			}
+			if next == nil {
+				break
+			}
+			for pi, p := range next.Preds {
+				if p == b {
+					taken[next] = pi
+				}
+			}
+			b = next
+		}
+	}
+	finTableCache[fn] = &tab
+	return &tab, true
+}
+
 // acceptSet8: the exact set of arguments for which the one-parameter (8-bit
 // integer) boolean function fn returns true.  ok=false when fn is not such a
 // function or contains anything but branches and pure expressions over the
@@ -259,4 +392,281 @@ func acceptSet8(fn *ssa.Function) (acc finSet, ok bool) {
 		}
 	}
 	return acc, good
+}
+
+// finRoot: the 8-bit value an expression is a pure function of (through
+// conversions and arithmetic with constants); nil if there is none.
+func finRoot(v ssa.Value, depth int) ssa.Value {
+	if depth > 12 {
+		return nil
+	}
+	switch e := v.(type) {
+	case *ssa.Const:
+		return nil
+	case *ssa.Convert:
+		if r := finRoot(e.X, depth+1); r != nil {
+			return r
+		}
+	case *ssa.ChangeType:
+		if r := finRoot(e.X, depth+1); r != nil {
+			return r
+		}
+	case *ssa.BinOp:
+		_, xk := e.X.(*ssa.Const)
+		_, yk := e.Y.(*ssa.Const)
+		if yk {
+			if r := finRoot(e.X, depth+1); r != nil {
+				return r
+			}
+		}
+		if xk {
+			if r := finRoot(e.Y, depth+1); r != nil {
+				return r
+			}
+		}
+		return nil
+	case *ssa.Phi:
+		return nil
+	}
+	if w, _, ok := typeWidth(v.Type(), "amd64"); ok && w == 8 {
+		return v
+	}
+	return nil
+}
+
+// finVals: values of load instructions on the path being walked by finSetAt
+// (consulted by finExpr); nil outside such a walk.
+var finVals map[ssa.Value]constant.Value
+
+// finSetAt: the exact set of values expression v can have when block b is
+// entered (or, when v is computed in b, where it is computed), when v is a
+// pure function of one 8-bit quantity r and the conditions on the way are too.
+// r is an SSA value, or the content of a local 8-bit cell that one call fills
+// through its address (var value uint8; unpackU8(data, &value)); later stores
+// of pure expressions into the cell are followed.  For every r the paths from
+// the entry that r can take are walked (a condition that is not a function of
+// r leaves both branches open).  ok=false when there is no such r or a store
+// into the cell cannot be evaluated.
+func finSetAt(v ssa.Value, b *ssa.BasicBlock) (set finSet, ok bool) {
+	return finSetAtRoot(v, b, finRoot(v, 0))
+}
+
+// finSetAtRoot: as finSetAt with the 8-bit quantity given (v may then be a
+// constant: the result says for which arguments block b is reached).
+func finSetAtRoot(v ssa.Value, b *ssa.BasicBlock, root ssa.Value) (set finSet, ok bool) {
+	if root == nil {
+		return set, false
+	}
+	var cell *ssa.Alloc
+	var filler ssa.Instruction
+	if ld, isLd := root.(*ssa.UnOp); isLd && ld.Op == token.MUL {
+		if al, isAl := ld.X.(*ssa.Alloc); isAl {
+			writers, esc := cellWriters(al)
+			if esc {
+				return set, false
+			}
+			for _, w := range writers {
+				if _, isSt := w.(*ssa.Store); isSt {
+					continue
+				}
+				if filler != nil && filler != w {
+					return set, false
+				}
+				filler = w
+			}
+			if filler == nil {
+				return set, false
+			}
+			cell = al
+		}
+	}
+	_, signed, _ := typeWidth(root.Type(), "amd64")
+	fn := b.Parent()
+	defer func() { finVals = nil }()
+	for i := 0; i < 256; i++ {
+		x := int64(i)
+		if signed {
+			x = int64(int8(i))
+		}
+		taken := map[*ssa.BasicBlock]int{}
+		onstack := map[*ssa.BasicBlock]bool{}
+		steps := 0
+		bad := false
+		finVals = map[ssa.Value]constant.Value{}
+		var cellVal constant.Value // nil: not yet filled
+		prm := root
+		if cell != nil {
+			prm = nil
+		}
+		var walk func(cur *ssa.BasicBlock)
+		walk = func(cur *ssa.BasicBlock) {
+			steps++
+			if steps > 20000 || bad {
+				return
+			}
+			saveCell := cellVal
+			var touched []ssa.Value
+			defer func() {
+				cellVal = saveCell
+				for _, t := range touched {
+					delete(finVals, t)
+				}
+			}()
+			for _, in := range cur.Instrs {
+				if cell != nil {
+					switch y := in.(type) {
+					case *ssa.UnOp:
+						if y.Op == token.MUL && y.X == ssa.Value(cell) {
+							finVals[y] = cellVal // nil while unfilled: unknown
+							touched = append(touched, y)
+						}
+					case *ssa.Store:
+						if y.Addr == ssa.Value(cell) {
+							nv, okv := finExpr(y.Val, prm, x, taken, 0)
+							if !okv {
+								bad = true
+								return
+							}
+							cellVal = nv
+						}
+					}
+					if in == filler {
+						cellVal = constant.MakeInt64(x)
+					}
+				}
+				if val, isVal := in.(ssa.Value); isVal && cur == b && val == v {
+					res, known := finExpr(v, prm, x, taken, 0)
+					if !known || res.Kind() != constant.Int {
+						bad = true
+						return
+					}
+					k, _ := constant.Int64Val(res)
+					set[uint8(k)] = true
+					if finEach != nil {
+						finEach(i, uint8(k))
+					}
+					return
+				}
+			}
+			if cur == b {
+				// v is computed before b (it dominates b)
+				res, known := finExpr(v, prm, x, taken, 0)
+				if !known || res.Kind() != constant.Int {
+					bad = true
+					return
+				}
+				k, _ := constant.Int64Val(res)
+				set[uint8(k)] = true
+				if finEach != nil {
+					finEach(i, uint8(k))
+				}
+				return
+			}
+			onstack[cur] = true
+			succs := cur.Succs
+			if iff := ifOf(cur); iff != nil && len(cur.Succs) == 2 {
+				if cv, known := finExpr(iff.Cond, prm, x, taken, 0); known && cv.Kind() == constant.Bool {
+					if constant.BoolVal(cv) {
+						succs = cur.Succs[:1]
+					} else {
+						succs = cur.Succs[1:]
+					}
+				}
+			}
+			for _, s := range succs {
+				if onstack[s] || isBackEdge(cur, s) {
+					continue
+				}
+				old, had := taken[s]
+				for pi, pr := range s.Preds {
+					if pr == cur {
+						taken[s] = pi
+					}
+				}
+				walk(s)
+				if had {
+					taken[s] = old
+				} else {
+					delete(taken, s)
+				}
+			}
+			onstack[cur] = false
+		}
+		walk(fn.Blocks[0])
+		if steps > 20000 || bad {
+			return set, false
+		}
+	}
+	return set, true
+}
+
+// finSetWithin: every member lies in one of the closed ranges.
+func finSetWithin(s finSet, ranges [][2]int) (bool, int) {
+	for i, b := range s {
+		if !b {
+			continue
+		}
+		in := false
+		for _, r := range ranges {
+			if i >= r[0] && i <= r[1] {
+				in = true
+			}
+		}
+		if !in {
+			return false, i
+		}
+	}
+	return true, -1
+}
+
+// finEach, when set, receives every (argument pattern, value) pair finSetAt finds.
+var finEach func(x int, val uint8)
+
+type finSite struct {
+	V ssa.Value
+	B *ssa.BasicBlock
+}
+
+// finFunc: the function octet -> value realised by a set of sites (the stores
+// of a decoder, the encode calls of an encoder): for every 8-bit argument
+// exactly one site is reached with exactly one value.  ok=false otherwise.
+func finFunc(sites []finSite) (tab [256]int, ok bool) {
+	for i := range tab {
+		tab[i] = -1
+	}
+	good := true
+	var root ssa.Value
+	for _, s := range sites {
+		if r := finRoot(s.V, 0); r != nil {
+			if root != nil && root != r {
+				// two loads of one cell are one quantity; anything else is not understood
+				lr, ok1 := root.(*ssa.UnOp)
+				l2, ok2 := r.(*ssa.UnOp)
+				if !(ok1 && ok2 && lr.X == l2.X) {
+					return tab, false
+				}
+				continue
+			}
+			root = r
+		}
+	}
+	for _, s := range sites {
+		finEach = func(x int, val uint8) {
+			if tab[x] >= 0 && tab[x] != int(val) {
+				good = false
+			}
+			tab[x] = int(val)
+		}
+		_, okS := finSetAtRoot(s.V, s.B, root)
+		finEach = nil
+		if !okS {
+			return tab, false
+		}
+	}
+	for i := range tab {
+		if tab[i] < 0 {
+			good = false
+		}
+	}
+	return tab, good
 }
